@@ -111,6 +111,19 @@ CHECKS = {
         technique='AST equivalence of the two runtime copies + symbolic differential execution (CrossHair/z3) where they differ',
         engine='E1',
     ),
+    'C11': dict(
+        category='other',
+        text=('Bounded symbolic execution (CrossHair + z3) of the classes the real Parser emits for SUM/AVERAGE/MIN/MAX/COUNT/COUNTBLANK/AND/OR over '
+              'area shapes (row, column, rectangle, whole column, two areas, scalar+area in either order, other sheet, area reaching below the used '
+              'range, the same reference text on two sheets, all formulas also in one workbook); the contents of the cells involved are symbolic '
+              'Union[int, bool, str, None]; oracle = independent fold; SUM(X,Y)=SUM(X)+SUM(Y) as a metamorphic condition.'),
+        design_ref='DESIGN.md section 6 / C11',
+        note=('4 symbolic cells; texts of length <= 1; AVERAGE is decided in two steps (the emitted code hands exactly the numeric cells to _average - '
+              'spied - and _average on small integer lists) because symbolic division makes the solver crawl; float arithmetic in SUM is not covered '
+              '(comparisons only for MIN/MAX); dates and error-valued cells inside aggregates are outside the claim.'),
+        technique='symbolic execution of the real Python code (CrossHair/z3), per-condition solver verdict',
+        engine='E1',
+    ),
 }
 
 NOT_YET = {}   # filled below for every property without a check
